@@ -272,6 +272,10 @@ def r3_seeding(ctx, chk, rule="C14.3"):
             continue
         found = True
         e = stores[0]
+        # `if not converged: raise` in front of the seeding: whenever the function goes on, the seeding runs
+        not_raised = {simp(("not", r_[0])) for r_ in sx.final.effects if r_[1] == "raise"}
+        if e[0] != TRUE and e[0] in not_raised:
+            e = (TRUE,) + tuple(e[1:])
         st = ("elem", l.id)
         inside_while = any(l.id in w.inner for w in whiles)
         if inside_while:
